@@ -15,7 +15,7 @@ mkdir -p "$DEST"; rm -rf "$DEST/demo"; cp -r "$SRC/patch.diff" "$SRC/demo" "$DES
 git -C /repo worktree remove --force "$W" >/dev/null 2>&1; rm -rf "$W"; git -C /repo worktree prune
 git -C /repo worktree add --detach "$W" HEAD >/dev/null 2>&1 || { echo "cannot create worktree"; exit 2; }
 export CARGO_NET_OFFLINE=true; [ -z "${LOCAL_TARGET:-}" ] && export CARGO_TARGET_DIR="$TT"
-rundemo() { mkdir -p "$W/SEED_OUT"; rm -rf "$W/SEED_OUT/demo"; cp -r "$DEST/demo" "$W/SEED_OUT/demo"; sed -i "s#$1#$W#g" "$W/SEED_OUT/demo/"*.sh 2>/dev/null; ( cd "$W" && bash SEED_OUT/demo/run.sh ) > "$DEST/.demo.log" 2>&1; }
+rundemo() { mkdir -p "$W/SEED_OUT" "$W/vaporetto/tests" "$W/predict/tests" "$W/evaluate/tests" "$W/vaporetto_rules/tests"; rm -rf "$W/SEED_OUT/demo"; cp -r "$DEST/demo" "$W/SEED_OUT/demo"; sed -i "s#$1#$W#g" "$W/SEED_OUT/demo/"*.sh 2>/dev/null; ( cd "$W" && bash SEED_OUT/demo/run.sh ) > "$DEST/.demo.log" 2>&1; }
 rundemo "$1"; rc_orig=$?
 echo "demo on original code: exit=$rc_orig (want 0)"
 if ! git -C "$W" apply "$DEST/patch.diff"; then echo "PATCH DOES NOT APPLY"; exit 1; fi
